@@ -84,6 +84,28 @@ ASSUMPTIONS = [
     "generic type with only-Any parameters) is shared by R11.4 and R11.7; the "
     "input of Optimize counts as such a producer",
 ]
+# rules/c11_latch.py (R11.20)
+EXPLANATION += (
+    "  R11.20 (rules/c11_latch.py) first-value latches: a local initialised "
+    "to None and filled inside a loop with an integer-valued expression "
+    "(len(..), a count/index, arithmetic on those, also through one local or "
+    "an enumerate/range index) whose 'still unset?' question is asked at all "
+    "must ask it by identity (`x is None`); a truthiness test on the bare "
+    "name (`x or E`, `not x`, `x if x else E`, `if x`, walrus forms) treats a "
+    "legitimate first value 0 as unset - in CombineContainers._should_merge "
+    "the arity of a leading tuple[()] is then overwritten by the next "
+    "tuple's, the arity mismatch is missed and the grouped parameters are "
+    "zipped to the shorter tuple (Union[tuple[()], tuple[int]] -> "
+    "tuple[()]).  Scope: pytd/optimize.py, pytd_utils.py, visitors.py "
+    "(thorough: all of pytype/pytd).  Blind spots: the second half of the "
+    "seeded change (dropping the arity from CombineContainers._key) is "
+    "behaviour-preserving on its own and not judged; latches over values "
+    "whose type the rule cannot see to be int are not instances; a different "
+    "arity test (a set of lengths) makes the anchor vanish: analysis error.")
+ASSUMPTIONS += [
+    "R11.20: len(), int(), sum(), .index/.count/.find results and "
+    "enumerate/range indices are integers for which 0 is an ordinary value",
+]
 
 OPT = "pytype/pytd/optimize.py"
 UTILS = "pytype/pytd/pytd_utils.py"
